@@ -8,7 +8,7 @@ namespace Sge.Core
 open Sge Sge.Genesis
 
 /-- settleParticipation: only balances change in the state; the participation is written back as paid -/
-theorem settlePart_shape {s : State} {b : Book} {p : Part} {m : Market} {r : State × Book}
+theorem settlePart_shapeSB {s : State} {b : Book} {p : Part} {m : Market} {r : State × Book}
     (h : settlePart s b p m = some r) :
     p.isSettled = false ∧ ∃ bal p', r = ({ s with bal := bal }, b.setPart p') ∧ p'.idx = p.idx ∧ p'.isSettled = true := by
   unfold settlePart at h
@@ -37,7 +37,7 @@ theorem settleOne_shape {s : State} {b : Book} {p : Part} {m : Market} {sc : Nat
   · rename_i hp
     simp only [Option.map_eq_some_iff] at h
     obtain ⟨x, hx, rfl⟩ := h
-    obtain ⟨h0, bal, p', rfl, e1, e2⟩ := settlePart_shape hx
+    obtain ⟨h0, bal, p', rfl, e1, e2⟩ := settlePart_shapeSB hx
     exact Or.inr ⟨h0, bal, p', rfl, e1, e2⟩
   · rename_i hp
     simp only [Option.some.injEq] at h
@@ -139,17 +139,17 @@ theorem statusOf_setBook (s : State) (B : Book) (u : Nat) :
     statusOf (setBook s B) u = if u = B.uid then some B.status else statusOf s u := by
   unfold statusOf
   by_cases e : u = B.uid
-  · subst e; simp [getBook_setBook_self]
+  · subst e; simp [getBook_setBook_selfSB]
   · simp only [e, if_false]
-    rw [getBook_setBook_ne _ _ _ (Ne.symm e)]
+    rw [getBook_setBook_neSB _ _ _ (Ne.symm e)]
 
 theorem unpaidOf_setBook (s : State) (B : Book) (u : Nat) :
     unpaidOf (setBook s B) u = if u = B.uid then B.unpaid else unpaidOf s u := by
   unfold unpaidOf
   by_cases e : u = B.uid
-  · subst e; simp [getBook_setBook_self]
+  · subst e; simp [getBook_setBook_selfSB]
   · simp only [e, if_false]
-    rw [getBook_setBook_ne _ _ _ (Ne.symm e)]
+    rw [getBook_setBook_neSB _ _ _ (Ne.symm e)]
 
 theorem getElem?_zero_some {l : List Nat} {x : Nat} (h : l[0]? = some x) : ∃ R, l = x :: R := by
   cases l with
